@@ -6,7 +6,7 @@ CONSTANTS
   MaxOps = 2
   OriginInHash = TRUE
   RecordOffset = 0
-  MaxRollbacks = 1
+  MaxRollbacks = 0
   EmptyRecordWritten = TRUE
   CrashOnStale = FALSE
 INVARIANTS C27_RetainedReadable CollectorValid LiveNotDead
